@@ -35,6 +35,12 @@ def same_mesh_meta(Pin, Pout, nlev, what):
     if Pout["ndims"] != Pin["ndims"]: bad.append(f"{what}: ndims")
     if Pout["time"] != Pin["time"]: bad.append(f"{what}: time {Pout['time']} != {Pin['time']}")
     if Pout["lo"] != Pin["lo"] or Pout["hi"] != Pin["hi"]: bad.append(f"{what}: domain bounds")
+    # a valid header says the step of each level twice (the step-number line and the level's own block): the two agree in
+    # the output when they agree in the input
+    if Pin.get("level_steps") == Pin.get("steps") and "level_steps" in Pout and \
+            any(Pout["level_steps"][lv] != Pout["steps"][lv] for lv in range(min(nlev, len(Pout["steps"])))):
+        bad.append(f"{what}: the level blocks of the output header give steps {Pout['level_steps']} but its step-number line "
+                   f"says {Pout['steps']}")
     for lv in range(nlev):
         if Pout["dx"][lv] != Pin["dx"][lv]: bad.append(f"{what}: cell sizes at level {lv}")
         if Pout["grid"][lv] != Pin["grid"][lv]: bad.append(f"{what}: grid size at level {lv}")
@@ -110,3 +116,52 @@ def global_header_theorem_applies(path, leanio):
     if m.get("parse") != "ok":
         return f"the model of the reader does not accept the rendered text ({m.get('parse')})"
     return None
+
+
+def output_header_matches_rewrite(inp, out, limit, names, tool, leanio, rep=None):
+    """Is the Header a tool wrote at `out` exactly the text the Lean writer model (`Header.rewriteOf`, fed with the reader
+    model's parse of the input Header under the level limit, the output names, and Python's str(float(token)) for the
+    float tokens) prints - and does it pass the executable hypothesis of `output_header_read_back`?  Returns None when
+    it does, otherwise what does not."""
+    text = open(os.path.join(inp, "Header"), newline="").read()
+    req0 = header_request(text)
+    if req0 is None:
+        return "the input header does not have the line structure of the renderer"
+    floats = []
+    for t in set(text.split()):
+        try:
+            floats.append([t, str(float(t))])
+        except ValueError:
+            pass
+    m = leanio.driver([{"op": "rewrite_header", "hex": text.encode().hex(), "limit": limit, "names": list(names),
+                        "coord": req0["coord"], "floats": floats, "tool": tool}])[0]
+    if m.get("status") != "ok":
+        return f"the reader model does not accept the input header ({m.get('status')}: {m.get('why')})"
+    if bytes.fromhex(m["hex"]) != open(os.path.join(out, "Header"), "rb").read():
+        return "the written header differs from the text of the Lean writer model for the same input header"
+    if not m.get("good"):
+        return "the written header does not satisfy the hypothesis of the read-back theorem"
+    if rep is not None and all(a == b for a, b in floats if any(c in a.lower() for c in ".en")):
+        rep.count("header-float-tokens-in-shortest-form")       # then `output_header_keeps_mesh` (fl = id) applies as stated
+    return None
+
+
+def level_headers_match_rewrite(inp, out, Q, kept, leanio, inp2=None, kept2=None):
+    """Is every Cell_H of the output exactly the text the Lean line rewriter derives from the input's Cell_H (colander:
+    `CellHRewrite.rewrite` with the kept columns and the output's offsets; combine: `CellHRewrite.combine` with the two
+    inputs' level headers and picked columns)?  Returns the list of levels that differ."""
+    reqs = []
+    for lv, lev in enumerate(Q["levels"]):
+        t1 = open(os.path.join(inp, lev["cdir"], "Cell_H"), "rb").read()
+        offs = [o for _, o in lev["fab"]]
+        if inp2 is None:
+            reqs.append({"op": "rewrite_cellh", "hex": t1.hex(), "kept": list(kept), "offsets": offs})
+        else:
+            t2 = open(os.path.join(inp2, lev["cdir"], "Cell_H"), "rb").read()
+            reqs.append({"op": "combine_cellh", "hex1": t1.hex(), "hex2": t2.hex(), "k1": list(kept), "k2": list(kept2), "offsets": offs})
+    bad = []
+    for lv, (lev, m) in enumerate(zip(Q["levels"], leanio.driver(reqs))):
+        real = open(os.path.join(out, lev["cdir"], "Cell_H"), "rb").read()
+        if m.get("status") != "ok" or bytes.fromhex(m["hex"]) != real:
+            bad.append(lv)
+    return bad
